@@ -234,6 +234,7 @@ def run(ck: Checker, prog: Program, tier: str):
             ck.violation("C19.R3", "cli.cli", norm_key(a),
                          f"worker parameter `{w.params[i]}` receives a value loaded from `{src}` (expected {opt or 'the option dict'})",
                          loc=cli.loc(a))
+    ck.guard(_file_argument, ck, prog, cli)
     # settings loaded through the dispatching reader
     for c in calls_in(cli.node, "read_settings_object_from_file"):
         q = _resolve_call(prog, cli.module, c)
@@ -243,3 +244,49 @@ def run(ck: Checker, prog: Program, tier: str):
     ck.extra["worker_effects"] = [describe_effect(e) for e in s.effects][:30]
     ck.extra["calls_resolved"] = eng.calls_resolved
     ck.extra["externals_assumed_pure"] = dict(eng.assumed_pure)
+
+
+#: keyword arguments of click.Path that only validate the string (it reaches the worker as typed by the user)
+PATH_VALIDATION_ONLY = {"exists", "file_okay", "dir_okay", "readable", "writable", "executable", "allow_dash"}
+#: keyword arguments that rewrite the string (absolute path, resolved links, another type)
+PATH_REWRITING = {"resolve_path", "path_type"}
+
+
+def _file_argument(ck: Checker, prog: Program, cli):
+    """The worker derives the record's meta and the output names from the file name: the command line must hand it over as typed."""
+    decl = None
+    for d in cli.node.decorator_list:
+        if isinstance(d, ast.Call) and call_name(d) == "argument" and d.args and isinstance(d.args[0], ast.Constant) and d.args[0].value == "file_names":
+            decl = d
+    if decl is None:
+        raise AnalysisError("cli.cli: declaration of the `file_names` argument not found")
+    for kw in decl.keywords:
+        if kw.arg == "callback":
+            raise AnalysisError("cli.cli: `file_names` goes through a callback; not analysed")
+    ty = kwarg(decl, "type")
+    bad = None
+    if ty is None or (isinstance(ty, ast.Name) and ty.id == "str") or dotted(ty) in ("click.STRING", "click.UNPROCESSED"):
+        pass
+    elif isinstance(ty, ast.Call) and (dotted(ty.func) or "").split(".")[-1] == "Path":
+        if ty.args:
+            raise AnalysisError("cli.cli: positional arguments of click.Path are not analysed")
+        for kw in ty.keywords:
+            falsy = isinstance(kw.value, ast.Constant) and not kw.value.value
+            if kw.arg in PATH_REWRITING and not falsy:
+                bad = f"click.Path({kw.arg}={unparse(kw.value)}) rewrites every file name before the pipeline sees it"
+            elif kw.arg not in PATH_VALIDATION_ONLY | PATH_REWRITING:
+                raise AnalysisError(f"cli.cli: click.Path option `{kw.arg}` is not classified")
+    else:
+        raise AnalysisError(f"cli.cli: type `{unparse(ty)}` of the `file_names` argument is not classified")
+    if bad:
+        ck.violation("C19.R3", "cli.cli", "file_names declaration",
+                     f"{bad}: the meta written into the result and the output stem no longer belong to the file as the user named it "
+                     f"(two links to like-named targets overwrite each other)", loc=cli.loc(decl))
+    else:
+        ck.ok("C19.R3", "cli.cli", "file_names reach the worker as typed", detail=unparse(decl))
+    n = kwarg(decl, "nargs")
+    if n is not None and isinstance(n, ast.UnaryOp) and isinstance(n.op, ast.USub) and isinstance(n.operand, ast.Constant) and n.operand.value == 1:
+        ck.ok("C19.R3", "cli.cli", "file_names takes every file of the command line (nargs=-1)", nontrivial=False)
+    else:
+        ck.violation("C19.R3", "cli.cli", "file_names nargs", f"the `file_names` argument is declared with nargs={unparse(n) if n is not None else 'default'}: "
+                     f"not every file of the batch is processed", loc=cli.loc(decl))
